@@ -815,3 +815,10 @@ Definition check_C20_sess_order (inbound : list (N * msg)) (outs : list uout) : 
   let d := flat_map u_dlv outs in
   forallb (fun x => subseqb meqb (stream_of (fst x) (sender_of (snd x)) d)
                                   (stream_of (fst x) (sender_of (snd x)) inbound)) d.
+
+(* completeness at the level of one session: every frame that arrives for a local actor while that
+   actor is alive — still in pre_start or running — is handled by it, once, in order *)
+Definition check_C20_sess_complete (must : list (N * msg)) (outs : list uout) : bool :=
+  let d := flat_map u_dlv outs in
+  forallb (fun x => list_eqb meqb (stream_of (fst x) (sender_of (snd x)) d)
+                                  (stream_of (fst x) (sender_of (snd x)) must)) must.
